@@ -428,6 +428,8 @@ class TBRMatchedMarkets:
       for d in design:
         treatment_geos = {self.data.geo_index[x] for x in d.treatment_geos}
         control_geos = {self.data.geo_index[x] for x in d.control_geos}
+        # Map on a copy, the stored designs must keep referring to indices.
+        d = copy.copy(d)
         d.treatment_geos = treatment_geos
         d.control_geos = control_geos
         output_result.append(d)
